@@ -4,6 +4,7 @@ Whole 0.01 grid of every (gender, event) row, with and without age factors, agai
 (Decimal; the power is decided in floating point outside a guard band and with 60-digit Decimal inside it)."""
 import json, os, math
 from decimal import Decimal, getcontext, ROUND_FLOOR, ROUND_CEILING
+from checks import crossapi
 from vlib import common
 from vlib.common import Report, Violation, HarnessError, Acc, pmap, merge
 
@@ -343,6 +344,7 @@ def run(tier):
     rep.assumptions += ['coefficients are the decimal text of the table in athlib/athlon_score.py; WMA factors are read from wma-athlons-data.json by the check',
                         'glibc pow is within 1e-9 relative (only used to decide when 60-digit Decimal evaluation is needed)',
                         '(row, age) pairs whose event has no WMA factor are outside the domain: ValueError or a value accepted']
+    crossapi.part(rep, PID, tier)
     return rep.finish()
 
 
